@@ -185,8 +185,10 @@ def reader_slices(func: Func, var: str, ce: ConstEval):
     out = []
     loopvals = {}
     for n in func.own_nodes():
-        if isinstance(n, ast.For) and isinstance(n.target, ast.Name) and isinstance(n.iter, (ast.Tuple, ast.List)) and all(isinstance(x, ast.Constant) and isinstance(x.value, int) for x in n.iter.elts):
+        if isinstance(n, (ast.For, ast.comprehension)) and isinstance(n.target, ast.Name) and isinstance(n.iter, (ast.Tuple, ast.List)) and all(isinstance(x, ast.Constant) and isinstance(x.value, int) for x in n.iter.elts):
             loopvals[n.target.id] = [x.value for x in n.iter.elts]
+        elif isinstance(n, (ast.For, ast.comprehension)) and isinstance(n.target, ast.Name) and isinstance(n.iter, ast.Call) and isinstance(n.iter.func, ast.Name) and n.iter.func.id == "range" and 1 <= len(n.iter.args) <= 3 and all(isinstance(x, ast.Constant) and isinstance(x.value, int) for x in n.iter.args):
+            loopvals[n.target.id] = list(range(*[x.value for x in n.iter.args]))
 
     def ev(e, env):
         if e is None:
@@ -195,11 +197,11 @@ def reader_slices(func: Func, var: str, ce: ConstEval):
             return e.value
         if isinstance(e, ast.Name) and e.id in env:
             return env[e.id]
-        if isinstance(e, ast.BinOp) and isinstance(e.op, (ast.Add, ast.Sub)):
+        if isinstance(e, ast.BinOp) and isinstance(e.op, (ast.Add, ast.Sub, ast.Mult)):
             a, b = ev(e.left, env), ev(e.right, env)
             if a is None or b is None:
                 raise ValueError
-            return a + b if isinstance(e.op, ast.Add) else a - b
+            return a + b if isinstance(e.op, ast.Add) else (a - b if isinstance(e.op, ast.Sub) else a * b)
         try:
             v = ce.eval_in_func(func, e)
             if isinstance(v, int):
